@@ -5,8 +5,12 @@ import (
 	"bytes"
 	"context"
 	"fmt"
+	"net"
+	"net/http"
+	"net/url"
 	"strings"
 	"sync"
+	"sync/atomic"
 	"time"
 
 	"github.com/go-logr/logr"
@@ -50,7 +54,7 @@ type xp struct {
 
 func isHTTP(kind string) bool { return strings.HasSuffix(kind, "http") }
 
-func newExporter(kind, addr string, rc retryCfg, timeout time.Duration, gz bool, initial time.Duration) (*xp, error) {
+func newExporter(kind, addr string, rc retryCfg, timeout time.Duration, gz bool, initial time.Duration, proxy func(*http.Request) (*url.URL, error)) (*xp, error) {
 	ctx := context.Background()
 	maxInt := 5 * initial
 	x := &xp{kind: kind}
@@ -70,6 +74,9 @@ func newExporter(kind, addr string, rc retryCfg, timeout time.Duration, gz bool,
 	case "otlptracehttp":
 		o := []otlptracehttp.Option{otlptracehttp.WithEndpoint(addr), otlptracehttp.WithInsecure(), otlptracehttp.WithTimeout(timeout),
 			otlptracehttp.WithRetry(otlptracehttp.RetryConfig{Enabled: rc.Enabled, InitialInterval: initial, MaxInterval: maxInt, MaxElapsedTime: rc.MaxElapsed})}
+		if proxy != nil {
+			o = append(o, otlptracehttp.WithProxy(proxy))
+		}
 		if gz {
 			o = append(o, otlptracehttp.WithCompression(otlptracehttp.GzipCompression))
 		}
@@ -94,6 +101,9 @@ func newExporter(kind, addr string, rc retryCfg, timeout time.Duration, gz bool,
 	case "otlpmetrichttp":
 		o := []otlpmetrichttp.Option{otlpmetrichttp.WithEndpoint(addr), otlpmetrichttp.WithInsecure(), otlpmetrichttp.WithTimeout(timeout),
 			otlpmetrichttp.WithRetry(otlpmetrichttp.RetryConfig{Enabled: rc.Enabled, InitialInterval: initial, MaxInterval: maxInt, MaxElapsedTime: rc.MaxElapsed})}
+		if proxy != nil {
+			o = append(o, otlpmetrichttp.WithProxy(proxy))
+		}
 		if gz {
 			o = append(o, otlpmetrichttp.WithCompression(otlpmetrichttp.GzipCompression))
 		}
@@ -118,6 +128,9 @@ func newExporter(kind, addr string, rc retryCfg, timeout time.Duration, gz bool,
 	case "otlploghttp":
 		o := []otlploghttp.Option{otlploghttp.WithEndpoint(addr), otlploghttp.WithInsecure(), otlploghttp.WithTimeout(timeout),
 			otlploghttp.WithRetry(otlploghttp.RetryConfig{Enabled: rc.Enabled, InitialInterval: initial, MaxInterval: maxInt, MaxElapsedTime: rc.MaxElapsed})}
+		if proxy != nil {
+			o = append(o, otlploghttp.WithProxy(proxy))
+		}
 		if gz {
 			o = append(o, otlploghttp.WithCompression(otlploghttp.GzipCompression))
 		}
@@ -242,15 +255,17 @@ func (h *handled) has(token string) bool {
 var theHandler = &handled{}
 
 type row struct {
-	kind        string
-	seq         []outcome
-	rc          retryCfg
-	gz          bool
-	cancel      string // "", "before", "during-delay", "during-backoff", "shutdown-during-backoff"
-	table       string
-	longBackoff bool
-	noTimeout   bool          // WithTimeout(0): no per-export deadline, only cancellation can end a wait
-	age         time.Duration // let the exporter exist this long before the export (longer than MaxElapsedTime)
+	kind         string
+	seq          []outcome
+	rc           retryCfg
+	gz           bool
+	cancel       string // "", "before", "during-delay", "during-backoff", "shutdown-during-backoff"
+	table        string
+	longBackoff  bool
+	noTimeout    bool          // WithTimeout(0): no per-export deadline, only cancellation can end a wait
+	age          time.Duration // let the exporter exist this long before the export (longer than MaxElapsedTime)
+	tempNetErrs  int           // HTTP: this many round trips fail with a temporary (not timeout) network error before one gets through
+	deadShutdown bool          // the Shutdown call carries a context that is already cancelled
 }
 
 func (rw row) String() string {
@@ -258,7 +273,7 @@ func (rw row) String() string {
 	for _, o := range rw.seq {
 		names = append(names, o.name)
 	}
-	return fmt.Sprintf("%s table=%s retry={enabled=%v maxElapsed=%v} gzip=%v cancel=%q timeout-disabled=%v exporter-age=%v responses=[%s]", rw.kind, rw.table, rw.rc.Enabled, rw.rc.MaxElapsed, rw.gz, rw.cancel, rw.noTimeout, rw.age, strings.Join(names, " ; "))
+	return fmt.Sprintf("%s table=%s retry={enabled=%v maxElapsed=%v} gzip=%v cancel=%q timeout-disabled=%v exporter-age=%v temporary-network-errors=%d shutdown-context-cancelled=%v responses=[%s]", rw.kind, rw.table, rw.rc.Enabled, rw.rc.MaxElapsed, rw.gz, rw.cancel, rw.noTimeout, rw.age, rw.tempNetErrs, rw.deadShutdown, strings.Join(names, " ; "))
 }
 
 func runRow(k *vf.Case, rw row) {
@@ -303,7 +318,17 @@ func runRow(k *vf.Case, rw row) {
 	if rw.noTimeout {
 		exportTimeout = 0
 	}
-	x, err := newExporter(rw.kind, srv.Addr, rw.rc, exportTimeout, rw.gz, initial)
+	var proxy func(*http.Request) (*url.URL, error)
+	if rw.tempNetErrs > 0 {
+		var n atomic.Int32
+		proxy = func(*http.Request) (*url.URL, error) {
+			if int(n.Add(1)) <= rw.tempNetErrs {
+				return nil, &net.DNSError{Err: "temporary failure in name resolution", Name: "collector.invalid", IsTemporary: true}
+			}
+			return nil, nil
+		}
+	}
+	x, err := newExporter(rw.kind, srv.Addr, rw.rc, exportTimeout, rw.gz, initial, proxy)
 	if err != nil {
 		k.Violate("exporter-constructor-error", rw.kind, err.Error(), nil)
 		return
@@ -351,6 +376,9 @@ func runRow(k *vf.Case, rw row) {
 			// the gRPC exporters serialise a Shutdown with a live context behind in-flight exports by
 			// design; with an expiring context they must abort them
 			sctx, scancel := context.WithTimeout(context.Background(), 100*time.Millisecond)
+			if rw.deadShutdown {
+				scancel()
+			}
 			x.shutdown(sctx)
 			scancel()
 			shutdownMu.Lock()
@@ -611,7 +639,7 @@ func runConcurrentRetry(k *vf.Case, kind string) {
 		return
 	}
 	defer srv.Close()
-	x, err := newExporter(kind, srv.Addr, retryCfg{Enabled: true}, 10*time.Second, gz, time.Millisecond)
+	x, err := newExporter(kind, srv.Addr, retryCfg{Enabled: true}, 10*time.Second, gz, time.Millisecond, nil)
 	if err != nil {
 		k.Violate("exporter-constructor-error", kind, err.Error(), nil)
 		return
@@ -697,6 +725,8 @@ func tableA() []row {
 				rows = append(rows, row{kind: kind, seq: []outcome{lp}, rc: on, table: "A", gz: n > 10000})
 			}
 			rows = append(rows, row{kind: kind, seq: []outcome{httpOutcome(503, 0)}, rc: retryCfg{Enabled: false}, table: "A"})
+			// a temporary network error that is not a timeout (resolver hiccup) is retryable
+			rows = append(rows, row{kind: kind, seq: []outcome{httpOutcome(200, 0)}, rc: on, table: "A", tempNetErrs: 2})
 		} else {
 			for _, c := range grpcCodes {
 				rows = append(rows, row{kind: kind, seq: []outcome{grpcOutcome(c, 0)}, rc: on, table: "A"})
@@ -748,6 +778,11 @@ func tableC() []row {
 		rows = append(rows, row{kind: kind, seq: []outcome{slow}, rc: on, cancel: "during-backoff", table: "C", longBackoff: true})
 		rows = append(rows, row{kind: kind, seq: []outcome{slow}, rc: on, cancel: "shutdown-during-backoff", table: "C", longBackoff: true})
 		rows = append(rows, row{kind: kind, seq: []outcome{ok}, rc: on, cancel: "shutdown-during-delay", table: "C"})
+		if strings.HasPrefix(kind, "otlptrace") {
+			// the trace exporters stop in-flight exports even when Shutdown's own context is already done
+			rows = append(rows, row{kind: kind, seq: []outcome{slow}, rc: on, cancel: "shutdown-during-backoff", table: "C", longBackoff: true, deadShutdown: true})
+			rows = append(rows, row{kind: kind, seq: []outcome{slow}, rc: on, cancel: "shutdown-during-backoff", table: "C", longBackoff: true, deadShutdown: true, noTimeout: true})
+		}
 		// the same with the per-export timeout switched off: cancellation is then the only way out of a wait
 		rows = append(rows, row{kind: kind, seq: []outcome{ok}, rc: on, cancel: "during-delay", table: "C", noTimeout: true})
 		rows = append(rows, row{kind: kind, seq: []outcome{slow}, rc: on, cancel: "during-backoff", table: "C", longBackoff: true, noTimeout: true})
